@@ -267,16 +267,6 @@ theorem readLoop_rlp (fuel : Nat) (w : World) (hnt : w.c.state ≠ .terminated) 
       generalize wa.readMessageFrame = y at *
       obtain ⟨wb, r2⟩ := y
       simp only [] at M O Q
-      have weak : wb.c.additional = wa.c.additional ∨ (∃ c, wb.c.additional = some (Frame.close c)) ∨
-          (∃ p, (Res.err .utf8 : Res Message) = .ok (.ping p) ∧ wb.c.additional = some (Frame.pong p)) →
-          ∀ r : Res Message, wb.c.additional = wa.c.additional ∨
-            (∃ c, wb.c.additional = some (Frame.close c)) ∨
-            (∃ p, r = .ok (.ping p) ∧ wb.c.additional = some (Frame.pong p)) := by
-        intro h r
-        rcases h with h | h | ⟨p, hp, _⟩
-        · exact Or.inl h
-        · exact Or.inr (Or.inl h)
-        · cases hp
       cases r2 with
       | panic s =>
         refine ⟨wa, PW, O.queued, ?_⟩
@@ -365,7 +355,7 @@ theorem readLoop_ping (fuel : Nat) (w : World) (hI : Inv w) (hnt : w.c.state ≠
 /-! ### pong payloads of a world -/
 
 /-- the pong frames that were queued, in queue (= wire) order -/
-def queuedPongs (w : World) : List Bytes := (w.queued.filter (·.isPong)).map (·.payload)
+def qPongs (w : World) : List Bytes := (w.queued.filter (·.isPong)).map (·.payload)
 
 /-- the payload of the pong waiting in the slot, if any -/
 def slotPong (w : World) : List Bytes :=
@@ -374,10 +364,10 @@ def slotPong (w : World) : List Bytes :=
   | none => []
 
 /-- all pong payloads the endpoint has committed to, oldest first -/
-def pongs (w : World) : List Bytes := queuedPongs w ++ slotPong w
+def pongs (w : World) : List Bytes := qPongs w ++ slotPong w
 
-theorem queuedPongs_of_eq {w w' : World} (h : w'.queued = w.queued) : queuedPongs w' = queuedPongs w := by
-  unfold queuedPongs; rw [h]
+theorem qPongs_of_eq {w w' : World} (h : w'.queued = w.queued) : qPongs w' = qPongs w := by
+  unfold qPongs; rw [h]
 
 theorem slotPong_of_eq {w w' : World} (h : w'.c.additional = w.c.additional) : slotPong w' = slotPong w := by
   unfold slotPong; rw [h]
@@ -397,25 +387,25 @@ theorem slotPong_close {w : World} {c : Option CloseFrame} (h : w.c.additional =
     slotPong w = [] := by
   rw [slotPong_some h]; rfl
 
-theorem queuedPongs_snoc {w w' : World} {f : Frame} (h : w'.queued = w.queued ++ [f]) :
-    queuedPongs w' = queuedPongs w ++ (if f.isPong then [f.payload] else []) := by
-  unfold queuedPongs
+theorem qPongs_snoc {w w' : World} {f : Frame} (h : w'.queued = w.queued ++ [f]) :
+    qPongs w' = qPongs w ++ (if f.isPong then [f.payload] else []) := by
+  unfold qPongs
   rw [h, List.filter_append, List.map_append]
   by_cases hp : f.isPong = true
   · simp [hp]
   · simp [hp]
 
 /-- slot draining moves the slot's pong to the queue or leaves it: the committed pongs stay -/
-theorem SD.pongs {w w' : World} (h : SD w w') : pongs w' = pongs w := by
+theorem SD.pongs_eq {w w' : World} (h : SD w w') : pongs w' = pongs w := by
   unfold pongs
   cases ha : w.c.additional with
   | none =>
     obtain ⟨h1, h2⟩ := h.empty ha
-    rw [queuedPongs_of_eq h2, slotPong_none h1, slotPong_none ha]
+    rw [qPongs_of_eq h2, slotPong_none h1, slotPong_none ha]
   | some f =>
     rcases h.full f ha with ⟨f', r, s, q⟩ | ⟨f', m, s, q⟩
-    · rw [queuedPongs_of_eq q, slotPong_some s, slotPong_some ha, r.isPong, r.payload]
-    · rw [queuedPongs_snoc q, slotPong_none s, slotPong_some ha, m.remask.isPong, m.remask.payload]
+    · rw [qPongs_of_eq q, slotPong_some s, slotPong_some ha, r.isPong, r.payload]
+    · rw [qPongs_snoc q, slotPong_none s, slotPong_some ha, m.remask.isPong, m.remask.payload]
       simp
 
 theorem UserFrame.notPong {f : Frame} (h : UserFrame f) : f.isPong = false := by
@@ -513,38 +503,38 @@ theorem step_pongs (w : World) (op : Op) (hI : Inv w) (hop : op.noRaw) (acc : Li
       rw [e]
       exact weaken _ h
     · obtain ⟨w1, hsd, hq, hslot⟩ := read_rlp w hnt
-      have h1 : (pongs w1).Sublist acc := by rw [hsd.pongs]; exact h
+      have h1 : (pongs w1).Sublist acc := by rw [hsd.pongs_eq]; exact h
       show (pongs w.read.1).Sublist (acc ++ srcOf .read (.msg w.read.2))
       rcases hslot with hs | ⟨c, hs⟩ | ⟨p, hp, hs⟩
       · have : pongs w.read.1 = pongs w1 := by
-          unfold pongs; rw [queuedPongs_of_eq hq, slotPong_of_eq hs]
+          unfold pongs; rw [qPongs_of_eq hq, slotPong_of_eq hs]
         rw [this]; exact weaken _ h1
-      · have : pongs w.read.1 = queuedPongs w1 := by
-          unfold pongs; rw [queuedPongs_of_eq hq, slotPong_close hs]; simp
+      · have : pongs w.read.1 = qPongs w1 := by
+          unfold pongs; rw [qPongs_of_eq hq, slotPong_close hs]; simp
         rw [this]; exact weaken _ (sublist_of_prefix h1)
-      · have : pongs w.read.1 = queuedPongs w1 ++ [p] := by
-          unfold pongs; rw [queuedPongs_of_eq hq, slotPong_pong hs]
+      · have : pongs w.read.1 = qPongs w1 ++ [p] := by
+          unfold pongs; rw [qPongs_of_eq hq, slotPong_pong hs]
         rw [this, hp]
         exact sublist_snoc_of_prefix p h1
   · obtain ⟨w0, hpre, hsd⟩ := step_decomp_nr w op hI hop hr
-    rw [hsd.pongs]
+    rw [hsd.pongs_eq]
     cases hpre with
     | same ha hq =>
-      have : pongs w0 = pongs w := by unfold pongs; rw [queuedPongs_of_eq hq, slotPong_of_eq ha]
+      have : pongs w0 = pongs w := by unfold pongs; rw [qPongs_of_eq hq, slotPong_of_eq ha]
       rw [this]; exact weaken _ h
     | close c _ _ ha hq =>
-      have : pongs w0 = queuedPongs w := by
-        unfold pongs; rw [queuedPongs_of_eq hq, slotPong_close ha]; simp
+      have : pongs w0 = qPongs w := by
+        unfold pongs; rw [qPongs_of_eq hq, slotPong_close ha]; simp
       rw [this]; exact weaken _ (sublist_of_prefix h)
     | pong d hopd _ _ ha hq =>
-      have : pongs w0 = queuedPongs w ++ [d] := by
-        unfold pongs; rw [queuedPongs_of_eq hq, slotPong_pong ha]
+      have : pongs w0 = qPongs w ++ [d] := by
+        unfold pongs; rw [qPongs_of_eq hq, slotPong_pong ha]
       rw [this, hopd]
       exact sublist_snoc_of_prefix d h
     | data f f' hu hm ha hq =>
       have hnp : f'.isPong = false := by rw [hm.remask.isPong]; exact hu.notPong
       have : pongs w0 = pongs w := by
-        unfold pongs; rw [queuedPongs_snoc hq, slotPong_of_eq ha, hnp]; simp
+        unfold pongs; rw [qPongs_snoc hq, slotPong_of_eq ha, hnp]; simp
       rw [this]; exact weaken _ h
 
 end WsProofs
